@@ -22,6 +22,8 @@ TRANSLATORS = [
     ('translator.gen_memo', 'GenMemo.v'),
     ('translator.gen_schema', 'GenSchema.v'),
     ('translator.gen_index', 'GenIndex.v'),
+    ('translator.gen_writers', 'GenWriters.v'),
+    ('translator.gen_readers', 'GenReaders.v'),
 ]
 
 FORBIDDEN = re.compile(r'\b(Admitted|admit|Axiom|Axioms|Parameter|Parameters|Conjecture|Conjectures|Abort All)\b'
